@@ -22,6 +22,10 @@ class UDS(EventDataset):
         return a
 
 
+class BadPick(Exception):
+    "the pick vector does not denote a distinct skeleton: generation stops at once (no path is spent on the rest of the tree)"
+
+
 class Ch:
     "chooser: consumes symbolic ints; every pick is a solver-checked case split"
 
@@ -33,14 +37,14 @@ class Ch:
             return 0
         if self.i >= len(self.p):
             self.bad = True
-            return 0
+            raise BadPick()
         v = self.p[self.i]
         self.i += 1
         for j in range(n):
             if v == j:
                 return j
         self.bad = True     # value outside this pick's range: not a distinct skeleton
-        return 0
+        raise BadPick()
 
 
 class Flags:
@@ -198,6 +202,7 @@ def form(ch, f, v, deep, k, s, idx, fl, names=("value",)):
         d = deep()
         if isinstance(d, ast.Constant):
             ch.bad = True
+            raise BadPick()
         n = ast.Subscript(ast.Tuple([other(), other()], L), d, L)
         if fl.depth == 0:
             fl.tuple_index.append((2, None, False))
@@ -271,7 +276,10 @@ def run_one(op, picks, k, s, idx, npool, full_leaves):
     fl = Flags()
     fl.lite = not full_leaves
     ch = Ch(picks)
-    body = gen(ch, k, s, idx, fl, npool, full_leaves)
+    try:
+        body = gen(ch, k, s, idx, fl, npool, full_leaves)
+    except BadPick:
+        return None, None, None
     if ch.bad or any_left(ch, picks):
         return None, None, None
     lam = ast.Lambda(ast.arguments([], [ast.arg("e")], None, [], [], None, []), body)
